@@ -1297,6 +1297,199 @@ example :
       (cutLookupPrune cs n 1).map (·.id) = [2] ∧
       (cutLookup { entries := cutLookupPrune cs n 1 } n 1).map (·.id) = some 2 := by decide
 
+/-! ### The single-flight key of a miss (final stretch, second leg) -/
+
+theorem loadQuestion_some {H : Bytes → UInt64} {fs : FStore} {n : Bytes} {qtype qclass : UInt16} {cd : Bool}
+    {sc : Scope} {e : FEntry} (h : loadQuestion H fs n qtype qclass cd sc = some e) :
+    fs (failureQuestionHash H n qtype qclass cd sc) = some e ∧ e.kind = FKind.question ∧ e.name = n ∧
+      e.qtype = qtype ∧ e.qclass = qclass ∧ e.cd = cd ∧ e.scope = sc := by
+  unfold loadQuestion at h
+  cases hs : fs (failureQuestionHash H n qtype qclass cd sc) with
+  | none => simp [hs] at h
+  | some e' =>
+    simp only [hs] at h
+    split at h
+    · rename_i hc
+      simp only [Option.some.injEq] at h
+      subst h
+      simp only [Bool.and_eq_true, beq_iff_eq, decide_eq_true_eq] at hc
+      exact ⟨rfl, hc.1.1.1.1.1, hc.1.1.1.1.2, hc.1.1.1.2, hc.1.1.2, hc.1.2, hc.2⟩
+    · cases h
+
+theorem loadZone_some {H : Bytes → UInt64} {fs : FStore} {z : Bytes} {qclass : UInt16} {e : FEntry}
+    (h : loadZone H fs z qclass = some e) :
+    fs (failureZoneHash H z qclass) = some e ∧ e.kind = FKind.zone ∧ e.name = z ∧ e.qclass = qclass := by
+  unfold loadZone at h
+  cases hs : fs (failureZoneHash H z qclass) with
+  | none => simp [hs] at h
+  | some e' =>
+    simp only [hs] at h
+    split at h
+    · rename_i hc
+      simp only [Option.some.injEq] at h
+      subst h
+      simp only [Bool.and_eq_true, beq_iff_eq] at hc
+      exact ⟨rfl, hc.1.1, hc.1.2, hc.2⟩
+    · cases h
+
+/-- the ancestor walk of `RetryKey`: it reports an active zone exactly when the failure
+lookup's own walk finds one; otherwise the key it remembers is the slot of an EXPIRED zone
+state on the walk (the accumulator is passed through untouched when it was already set). -/
+theorem retryZones_spec (H : Bytes → UInt64) (fs : FStore) (qclass : UInt16) (zs : List Bytes) (acc : Option UInt64) :
+    match retryZones H fs qclass zs acc with
+    | (true, _) => ∃ f, firstZone H fs qclass zs = some f
+    | (false, a) => firstZone H fs qclass zs = none ∧
+        (a = acc ∨ (acc = none ∧ ∃ z ∈ zs, ∃ e, loadZone H fs z qclass = some e ∧ e.active = false ∧
+                      a = some (failureZoneHash H z qclass))) := by
+  induction zs generalizing acc with
+  | nil => exact ⟨rfl, Or.inl rfl⟩
+  | cons z t ih =>
+    unfold retryZones firstZone
+    cases hl : loadZone H fs z qclass with
+    | none =>
+      simp only
+      have := ih acc
+      cases hr : retryZones H fs qclass t acc with
+      | mk b a =>
+        rw [hr] at this
+        cases b with
+        | true => exact this
+        | false =>
+          refine ⟨this.1, ?_⟩
+          rcases this.2 with h | ⟨h0, z', hz', e, he⟩
+          · exact Or.inl h
+          · exact Or.inr ⟨h0, z', List.mem_cons_of_mem _ hz', e, he⟩
+    | some e =>
+      simp only
+      by_cases ha : e.active = true
+      · simp only [ha, if_true]
+        exact ⟨e, rfl⟩
+      · have hx : e.active = false := by simpa using ha
+        simp only [hx, Bool.false_eq_true, if_false]
+        cases acc with
+        | some h0 =>
+          have := ih (some h0)
+          cases hr : retryZones H fs qclass t (some h0) with
+          | mk b a =>
+            rw [hr] at this
+            cases b with
+            | true => exact this
+            | false =>
+              refine ⟨this.1, ?_⟩
+              rcases this.2 with h | ⟨h1, _⟩
+              · exact Or.inl h
+              · cases h1
+        | none =>
+          have := ih (some (failureZoneHash H z qclass))
+          cases hr : retryZones H fs qclass t (some (failureZoneHash H z qclass)) with
+          | mk b a =>
+            rw [hr] at this
+            cases b with
+            | true => exact this
+            | false =>
+              refine ⟨this.1, ?_⟩
+              rcases this.2 with h | ⟨h1, _⟩
+              · exact Or.inr ⟨rfl, z, List.mem_cons_self, e, hl, hx, h⟩
+              · cases h1
+
+/-- what a probe generation's key may be: the slot of an EXPIRED state verified for this question. -/
+def RetryOK (H : Bytes → UInt64) (fs : FStore) (name : Bytes) (qtype qclass : UInt16) (cd : Bool) (scope : Scope)
+    (k : UInt64) : Prop :=
+  ∃ f, fs k = some f ∧ f.active = false ∧
+    ((f.kind = FKind.question ∧ f.name = canonicalName name ∧ f.qtype = qtype ∧ f.qclass = qclass ∧ f.cd = cd ∧
+        f.scope = normalizeKeyScope scope ∧
+        k = failureQuestionHash H (canonicalName name) qtype qclass cd (normalizeKeyScope scope)) ∨
+     (f.kind = FKind.zone ∧ f.qclass = qclass ∧
+        f.name ∈ failureZones (canonicalName name).length (canonicalName name) ∧
+        k = failureZoneHash H f.name qclass))
+
+/-- **`FailureCache.RetryKey`**: a probe generation is opened only when NO live failure state
+answers the question (the failure lookup misses), and its key is the slot of an expired state
+that is verified for the question: an exact one only for exactly this name, type, class, CD
+partition and audience; a zone one only for an ancestor-or-self zone of the same class. -/
+theorem retryKey_spec (H : Bytes → UInt64) (fs : FStore) (name : Bytes) (qtype qclass : UInt16) (cd : Bool)
+    (scope : Scope) (k : UInt64) (h : retryKey H fs name qtype qclass cd scope = some k) :
+    failureLookup H fs name qtype qclass cd scope = none ∧ RetryOK H fs name qtype qclass cd scope k := by
+  unfold retryKey at h
+  simp only at h
+  have hz := retryZones_spec H fs qclass (failureZones (canonicalName name).length (canonicalName name)) none
+  have zonePart : ∀ a, retryZones H fs qclass (failureZones (canonicalName name).length (canonicalName name)) none = (false, some a) →
+      RetryOK H fs name qtype qclass cd scope a := by
+    intro a hr
+    rw [hr] at hz
+    rcases hz.2 with h0 | ⟨_, z, hzm, e, he, hx, ha⟩
+    · cases h0
+    · obtain ⟨h1, h2, h3, h4⟩ := loadZone_some he
+      simp only [Option.some.injEq] at ha
+      subst ha
+      exact ⟨e, h1, hx, Or.inr ⟨h2, h4, by rw [h3]; exact hzm, by rw [h3]⟩⟩
+  unfold failureLookup
+  simp only
+  cases hr : retryZones H fs qclass (failureZones (canonicalName name).length (canonicalName name)) none with
+  | mk b a =>
+    rw [hr] at hz h
+    cases b with
+    | true =>
+      cases hq : loadQuestion H fs (canonicalName name) qtype qclass cd (normalizeKeyScope scope) with
+      | none => simp [hq] at h
+      | some e => by_cases ha : e.active = true <;> simp [hq, ha] at h
+    | false =>
+      have hnone := hz.1
+      cases hq : loadQuestion H fs (canonicalName name) qtype qclass cd (normalizeKeyScope scope) with
+      | none =>
+        simp only [hq] at h
+        refine ⟨hnone, ?_⟩
+        cases a with
+        | none => simp at h
+        | some a' =>
+          simp only [Option.some.injEq] at h
+          subst h
+          exact zonePart a' hr
+      | some e =>
+        by_cases ha : e.active = true
+        · simp [hq, ha] at h
+        · have hx : e.active = false := by simpa using ha
+          simp only [hq, hx, Bool.false_eq_true, if_false] at h
+          refine ⟨by simp only [hx, Bool.false_eq_true, if_false]; exact hnone, ?_⟩
+          cases a with
+          | some a' =>
+            simp only [Option.some.injEq] at h
+            subst h
+            exact zonePart a' hr
+          | none =>
+            simp only [Option.some.injEq] at h
+            subst h
+            obtain ⟨h1, h2, h3, h4, h5, h6, h7⟩ := loadQuestion_some hq
+            exact ⟨e, h1, hx, Or.inl ⟨h2, h3, h4, h5, h6, h7, rfl⟩⟩
+
+/-- **The single-flight key of a miss** (`dedupKey` in `Cache.ServeDNS`): it is the request's
+own `CacheKey` hash — question, CD partition and the client's audience, the very key function
+the exact-answer lookup and the insert use — or, when the failure lookup misses, the slot of an
+expired failure state verified for this question (`RetryOK`).  Nothing else ever keys a flight. -/
+theorem dedupKey_spec (H : Bytes → UInt64) (fs : FStore) (name : Bytes) (qtype qclass : UInt16) (cd : Bool)
+    (client : Scope) :
+    dedupKey H fs name qtype qclass cd client = (CacheKey.mk name qtype qclass cd client).hash H ∨
+    (failureLookup H fs name qtype qclass cd client = none ∧
+      RetryOK H fs name qtype qclass cd client (dedupKey H fs name qtype qclass cd client)) := by
+  unfold dedupKey
+  cases hr : retryKey H fs name qtype qclass cd client with
+  | none => exact Or.inl rfl
+  | some k => exact Or.inr (retryKey_spec H fs name qtype qclass cd client k hr)
+
+/-- non-vacuity: an expired CD=0 state gives the CD=0 request its slot as the flight key; the
+CD=1 twin keeps its own request key; a live state gives no retry key at all. -/
+example :
+    let H : Bytes → UInt64 := fun b => b.foldl (fun a x => a * 31 + x.toUInt64) 7
+    let n : Bytes := [97, 46]
+    let f : FEntry := { id := 1, kind := FKind.question, name := n, qtype := 1, qclass := 1, cd := false,
+                        scope := none, active := false }
+    let fs : FStore := fun h => if h = failureQuestionHash H n 1 1 false none then some f else none
+    let live : FStore := fun h => if h = failureQuestionHash H n 1 1 false none then some { f with active := true } else none
+    retryKey H fs n 1 1 false none = some (failureQuestionHash H n 1 1 false none) ∧
+      retryKey H fs n 1 1 true none = none ∧
+      dedupKey H fs n 1 1 true none = (CacheKey.mk n 1 1 true none).hash H ∧
+      retryKey H live n 1 1 false none = none := by decide +kernel
+
 /-- **Failure lookups never cross the CD partition, on any route**: a question-kind failure
 state handed out by the Store wrapper (`Store.LookupFailure`), by the wire lookup, or by any of
 the three ladders carries exactly the CD bit of the request that received it.  (Zone-kind
